@@ -135,8 +135,10 @@ class unix_disabled(uh.ifc.DisabledHash, uh.MinimalHandler):
     @classmethod
     def enable(cls, hash):
         hash = to_native_str(hash, param="hash")
-        for prefix in cls._disable_prefixes:
-            if hash.startswith(prefix):
+        # NOTE: the configured marker may be longer than one character (e.g. "*LK*", "!!"),
+        #       so it's tried before the single-character prefixes.
+        for prefix in (cls.default_marker, *cls._disable_prefixes):
+            if prefix and hash.startswith(prefix):
                 orig = hash[len(prefix) :]
                 if orig:
                     return orig
